@@ -830,8 +830,9 @@ fn c09_rate_x(max_items: u32, twin: bool) {
   let w = 1 + e::choose(2) as u64;
   let op = match e::choose(6) {
     0 => RateOp::Debounce(w),
-    1 => RateOp::Throttle(w, e::choose(3) as u8),
-    2 => RateOp::ThrottleTime(w, e::choose(3) as u8),
+    // throttle also with a zero-length window (its timer is due at once)
+    1 => RateOp::Throttle(if twin { w } else { e::choose(3) as u64 }, e::choose(3) as u8),
+    2 => RateOp::ThrottleTime(if twin { w } else { e::choose(3) as u64 }, e::choose(3) as u8),
     3 => RateOp::SampleInterval(w),
     4 => RateOp::BufferTime(w),
     _ => RateOp::BufferCountTime(1 + e::choose(2) as usize, w),
